@@ -10,7 +10,8 @@
   (KDF parameters and IV validated instead of panicking).
 
   Clause map
-    "recovered with that passphrase as the identical key and address"      roundtrip, roundtrip_keeps_leading_zeros
+    "recovered with that passphrase as the identical key and address"      roundtrip, roundtrip_keeps_leading_zeros,
+                                                                            short_plaintext_roundtrip (legacy files with stripped zeros)
     "with any other passphrase unlocking fails with an error"              wrong_pass_rejected, wrong_pass_never_unlocks
     "after modification of ciphertext, MAC, salt, KDF parameters ..."      tamper_ct_mac_salt_params_rejected,
                                                                             tamper_ct_rejected, tamper_mac_rejected
@@ -90,6 +91,25 @@ theorem roundtrip_keeps_leading_zeros (d : Nat) (hd : d < secpN) :
     (paddedBigBytes d 32).length = 32 ∧ scalarOfBytes (paddedBigBytes d 32) = d ∧
     ∀ b : Bytes, b.length = 32 → paddedBigBytes (beNat b) 32 = b :=
   ⟨paddedBigBytes_length d (Nat.lt_trans hd secpN_lt), scalarOfBytes_padded d hd, paddedBigBytes_beNat⟩
+
+/-- Read side, legacy key files: some clients wrote the private key with its leading zero bytes STRIPPED (a 31- or 30-byte
+    plaintext; the repo's `31_byte_key` / `30_byte_key` vectors).  Whatever width n <= 32 the plaintext has, DecryptKey reads
+    it as a big-endian number — i.e. pads on the LEFT — and returns the original scalar `d` (and its 32-byte serialisation
+    `paddedBigBytes d 32`), with the file's address, if present, matching; GetKey for that address accepts. -/
+theorem short_plaintext_roundtrip (P : Prims) (f : KeyFile) (pw : Bytes) (d n : Nat) (hd : d < secpN) (hn : n ≤ 32)
+    (hpt : decryptBytes P f pw = .ok (paddedBigBytes d n))
+    (haddr : f.address = [] ∨ fileAddr f.address = some (P.addrOf d)) :
+    decryptKey P f pw = .ok ⟨d, P.addrOf d⟩ ∧ getKey P (P.addrOf d) f pw = .ok ⟨d, P.addrOf d⟩ ∧
+    (⟨d, P.addrOf d⟩ : Key).bytes = paddedBigBytes d 32 := by
+  have hs := scalarOfBytes_padded_any d n hd hn
+  have hdk : decryptKey P f pw = .ok ⟨d, P.addrOf d⟩ := by
+    have := decryptKey_of_bytes hpt (by unfold addrCheck; rw [hs]; exact haddr)
+    rw [hs] at this
+    exact this
+  refine ⟨hdk, ?_, rfl⟩
+  unfold getKey
+  rw [hdk]
+  simp
 
 /-! ## 2. Wrong passphrase -/
 
@@ -620,6 +640,18 @@ example : ∃ f, encryptKey toyP 5 (toyP.addrOf 5) [] (ascii "pw") [1, 2, 3] wIv
   obtain ⟨f, h1, _, h3, _⟩ := roundtrip toyP 5 (by decide) (toyP.addrOf 5) [] (ascii "pw") [1, 2, 3] wIv 2 1 (by decide) rfl
     ((List.range 32).map UInt8.ofNat) 32 rfl (by decide) (by decide)
   exact ⟨f, h1, h3⟩
+
+/-- short_plaintext_roundtrip: the witness file with its ciphertext cut to the last byte (plaintext = the 1-byte blob 05, the 31
+    zero bytes stripped; MAC recomputed — H is the identity here) still opens to scalar 5. -/
+def wCryptoShort : Crypto :=
+  { cipher := wFile.crypto.cipher, ciphertext := ascii "05", iv := wFile.crypto.iv, kdf := wFile.crypto.kdf,
+    kdfparams := wFile.crypto.kdfparams, mac := hexEncode (macKey ((List.range 32).map UInt8.ofNat) ++ [5]) }
+def wFileShort : KeyFile := { wFile with crypto := wCryptoShort }
+
+example : decryptBytes toyP wFileShort (ascii "pw") = .ok (paddedBigBytes 5 1) ∧
+    decryptKey toyP wFileShort (ascii "pw") = .ok ⟨5, toyP.addrOf 5⟩ := by
+  refine ⟨by decide, ?_⟩
+  exact (short_plaintext_roundtrip toyP wFileShort (ascii "pw") 5 1 (by decide) (by decide) (by decide) (Or.inr (by decide))).1
 
 /-- a KDF that depends on the passphrase: first byte of the passphrase added to every output byte. -/
 def toyP2 : Prims :=
